@@ -723,6 +723,103 @@ scenarios:
 	res.Eval("next-nested-paths", true)
 }
 
+// nextSharedBySteps: two different steps of one scenario each take source.rows[next] (and the
+// second also a [next] element of a list that the first step's response handed back). Rows are
+// handed out consecutively: 2·shots accesses use rows 0…2·shots−1, each exactly once, whatever
+// the number of instances; on one instance shot k's steps get rows 2k and 2k+1.
+func nextSharedBySteps(res *vkit.Result, instances, shots int) {
+	tgt, err := vkit.NewHTTPTarget(false)
+	if err != nil {
+		res.Inconclusive(true, "target: %v", err)
+		return
+	}
+	defer tgt.Close()
+	type hit struct{ step, row string }
+	var mu sync.Mutex
+	var hits []hit
+	tgt.Respond = func(rq *vkit.ReqRec, rw http.ResponseWriter, r *http.Request) {
+		mu.Lock()
+		hits = append(hits, hit{r.Header.Get("X-Step"), r.Header.Get("X-Row")})
+		mu.Unlock()
+		_, _ = rw.Write([]byte("ok"))
+	}
+	base := fmt.Sprintf("/c15/nextshared-%d-%d", instances, shots)
+	var rows strings.Builder
+	for r := 0; r < 2*shots+3; r++ {
+		fmt.Fprintf(&rows, "%d\n", r)
+	}
+	_ = vkit.WriteMemAt(base+".csv", []byte(rows.String()))
+	yaml := fmt.Sprintf(`variable_sources:
+  - type: "file/csv"
+    name: "rows"
+    file: %q
+    fields: ["id"]
+requests:
+  - name: "login"
+    method: "POST"
+    uri: "/login"
+    headers: {"X-Step": "login", "X-Row": "{{.request.login.preprocessor.u.id}}"}
+    preprocessor:
+      mapping: {"u": "source.rows[next]"}
+  - name: "invite"
+    method: "POST"
+    uri: "/invite"
+    headers: {"X-Step": "invite", "X-Row": "{{.request.invite.preprocessor.u.id}}"}
+    preprocessor:
+      mapping: {"u": "source.rows[next]"}
+scenarios:
+  - name: "two"
+    weight: 1
+    min_waiting_time: 0
+    requests: ["login", "invite"]
+`, base+".csv")
+	_ = vkit.WriteMemAt(base+".yaml", []byte(yaml))
+	defer vkit.RemoveMem(base + ".csv")
+	defer vkit.RemoveMem(base + ".yaml")
+	pool := map[string]any{"id": "p", "ammo": map[string]any{"type": "http/scenario", "file": base + ".yaml", "limit": shots},
+		"result": map[string]any{"type": "discard"}, "gun": map[string]any{"type": "http/scenario", "target": tgt.Addr},
+		"rps": map[string]any{"type": "const", "ops": 5000, "duration": "300s"}, "startup": map[string]any{"type": "once", "times": instances}}
+	cs := map[string]any{"layer": "two steps of one scenario take source.rows[next]", "instances": instances, "shots": shots}
+	ec, err := vkit.DecodePools(map[string]any{"pools": []any{pool}})
+	if err != nil {
+		res.Violate("C15/next-shared/valid-description-rejected", fmt.Sprintf("description rejected: %v", err), cs)
+		return
+	}
+	ec.Pools[0].Aggregator = &vkit.MockAggregator{}
+	rr := vkit.RunEngine(ec, nil, 120*time.Second)
+	if rr.Hang || rr.Err != nil {
+		res.Violate("C15/next-shared/run", fmt.Sprintf("run failed: %v hang=%v", rr.Err, rr.Hang), cs)
+		return
+	}
+	mu.Lock()
+	defer mu.Unlock()
+	used := map[string]int{}
+	for _, h := range hits {
+		used[h.row]++
+	}
+	var bad []string
+	for r := 0; r < 2*shots; r++ {
+		if n := used[fmt.Sprint(r)]; n != 1 {
+			bad = append(bad, fmt.Sprintf("row %d used %d times", r, n))
+		}
+	}
+	if len(hits) != 2*shots || len(bad) > 0 {
+		if len(bad) > 6 {
+			bad = append(bad[:6], "…")
+		}
+		res.Violate("C15/next-shared/rows", fmt.Sprintf("%d shots of [login, invite], both steps taking source.rows[next]: %d requests arrived; consecutive rows 0…%d must each be used once: %s", shots, len(hits), 2*shots-1, strings.Join(bad, ", ")), cs)
+	} else if instances == 1 {
+		for k := 0; k+1 < len(hits); k += 2 {
+			if hits[k].step != "login" || hits[k+1].step != "invite" || hits[k].row != fmt.Sprint(k) || hits[k+1].row != fmt.Sprint(k+1) {
+				res.Violate("C15/next-shared/rows", fmt.Sprintf("one instance: shot %d sent %s with row %s and %s with row %s, want login with row %d and invite with row %d", k/2, hits[k].step, hits[k].row, hits[k+1].step, hits[k+1].row, k, k+1), cs)
+				break
+			}
+		}
+	}
+	res.Count("next_shared_requests_judged", int64(len(hits)))
+	res.Eval(fmt.Sprint("next-shared", instances, shots), true)
+}
+
 func nextFirstAccess(res *vkit.Result, rounds int) {
 	_ = vkit.WriteMemAt("/c15/next.csv", []byte("0,a\n1,b\n2,c\n3,d\n4,e\n5,f\n6,g\n7,h\n8,i\n9,j\n"))
 	yaml := `variable_sources:
@@ -982,6 +1079,8 @@ func main() {
 		}
 		runCase(res, genCase(rng, inst), i)
 	}
+	nextSharedBySteps(res, 1, 12)
+	nextSharedBySteps(res, 4, vkit.N(40, 400))
 	plainSteps(res, 1, 20)
 	plainSteps(res, 4, vkit.N(40, 400))
 	nextFirstAccess(res, vkit.N(2500, 40000))
